@@ -105,6 +105,17 @@ class Contract:
             raise TypeError(f"unknown contract fields {list(kw)} for {key}")
 
 
+def on_raise_clauses(c, exc_cls, prog):
+    """`on_raise` is a list (clauses for every exception) or a dict {exception class or '*': [clauses]}."""
+    if isinstance(c.on_raise, dict):
+        out = list(c.on_raise.get("*", []))
+        for k, v in c.on_raise.items():
+            if k != "*" and prog.exc_is(exc_cls, k):
+                out.extend(v)
+        return out
+    return list(c.on_raise)
+
+
 def parse_expr(txt):
     return ast.parse(txt.strip(), mode="eval").body
 
@@ -403,6 +414,10 @@ class Engine:
             return self.fresh_bytes(p, name, kind)
         if ty in ("None", "Any", "t.Any"):
             return NONE
+        if ty == "obj":
+            return VSym(fresh(Obj, name), None)
+        if ty == "seqobj":
+            return VList(t=fresh(SeqObj, name), elem="obj")
         if ty.startswith("t.Tuple[") or ty.startswith("Tuple["):
             inner = self.split_top(ty[ty.index("[") + 1:-1])
             return VTuple([self.fresh_of_type(x, p, module, f"{name}_{i}") for i, x in enumerate(inner)])
@@ -416,7 +431,7 @@ class Engine:
                 return VList(t=fresh(SeqSeq, name), elem="bytes")
             if inner == "int":
                 return VList(t=fresh(S, name), elem="int")
-            return VList(t=fresh(SeqObj, name), elem="obj")
+            return VList(t=fresh(SeqObj, name), elem="obj", elem_cls=self.prog.class_by_name(module, inner.split(".")[-1]))
         if ty.startswith("t.Type["):
             return VOpaque(ty)
         if ty.startswith("sym:"):
@@ -504,7 +519,7 @@ class Engine:
             return VTuple([self.havoc_like(x, p, name) for x in v.items])
         if isinstance(v, VList):
             if v.t is not None:
-                return VList(t=fresh(v.t.sort(), name), elem=v.elem)
+                return VList(t=fresh(v.t.sort(), name), elem=v.elem, elem_cls=v.elem_cls)
             raise Unsupported("havoc of a concrete-spine list (give the variable a symbolic list type)")
         if isinstance(v, VSym):
             return VSym(fresh(Obj, name), v.static_cls)
